@@ -227,6 +227,10 @@ def plain_filter(ad, k):
     return table_filter
 
 
+# two filter numbers served by partials of one function whose bound arguments compare equal (True == 1)
+K_TYPED_BOOL, K_TYPED_INT = 723349062897723963, 1714594234024792310
+TYPED_FILTERS = {K_TYPED_BOOL: True, K_TYPED_INT: 1}
+
 # argument tuples for the singleton ops: id -> (args, kwargs)
 SARGS = {
     0: ((), {}), 1: ((1,), {}), 2: ((1.0,), {}), 3: ((True,), {}), 4: ((-1,), {}), 5: ((-2,), {}),
@@ -470,6 +474,17 @@ class Real:
     def filt2(self, k):
         if k is None:
             return None
+        if k in TYPED_FILTERS and self.plain_filters:
+            # `functools.partial(f, True)` and `functools.partial(f, 1)` of ONE function: the bound arguments are equal
+            # (True == 1) yet the two filters accept different links; a new partial object per call, as in user code
+            import functools
+            if not hasattr(self, "_typed_fn"):
+                def typed(sel, link, x=None, _ad=self):
+                    kk = K_TYPED_BOOL if type(sel) is bool else K_TYPED_INT
+                    code = 0 if x is None else _ad.vname(x) + 1
+                    return bool((kk >> ((7 * _ad.lname(link) + code) % 64)) & 1)
+                self._typed_fn = typed
+            return functools.partial(self._typed_fn, TYPED_FILTERS[k])
         if k % 5 == 2 and not self.long_lived_filters:
             # a SHORT-LIVED callable (an inline lambda in user code): a new object per call, dropped
             # afterwards, so that its address can be reused by the next one
